@@ -25,7 +25,7 @@ from vf.core import MachineryError
 from vf.par import pmap
 
 META = {
-    "ready": False,
+    "ready": True,
     "category": "model_checking",
     "technique": "TLA+ spec (ClassTreeMerge.tla) of within-placeholders and Class._extend against the declarative union of "
                  "the files, model-checked by TLC for every shape x split x file order (intended / as-built); every "
